@@ -95,15 +95,18 @@ def run_driver_parallel(lines, jobs=8):
 
 # ------------------------------------------------------------------------------ pyham side
 
-def nwk_of(D, with_internal=True):
+def nwk_of(D, with_internal=True, quoted=False):
     """the Newick text fed to pyham; optionally decorated with branch lengths (D.meta['lengths']) and, for
     synthesised names, written without internal names (D.meta['nointernal'])"""
     if D.meta.get('nointernal') and D.naming == 'synth':
         with_internal = False
-    if not D.meta.get('lengths'):
+    if not D.meta.get('lengths') and not quoted:
         return gen.newick(D.T, with_internal) + ';'
+    qn = (lambda x: "'" + x + "'" if x else x) if quoted else (lambda x: x)      # quoted labels (legal Newick; needed for blanks, commas)
     def rec(t, root=False):
-        s_ = t[0] if not t[1] else '(' + ','.join(rec(k) for k in t[1]) + ')' + (t[0] if with_internal else '')
+        s_ = qn(t[0]) if not t[1] else '(' + ','.join(rec(k) for k in t[1]) + ')' + (qn(t[0]) if with_internal else '')
+        if not D.meta.get('lengths'):
+            return s_
         # (zero-length branches included: distance-based shortcuts must not confuse a genome with its ancestor)
         return s_ if root else s_ + ':' + ('0.1', '2.5', '0', '0.0')[sum(map(ord, t[0])) % 4]
     return rec(D.T, True) + ';'
@@ -111,7 +114,7 @@ def nwk_of(D, with_internal=True):
 def load_py(D, groups=None, species=None, **kw):
     """load the dataset with pyham (in-memory string transport); returns the Ham object"""
     xml = gen.orthoxml(species if species is not None else D.species, groups if groups is not None else D.groups,
-                       dbsplit=bool(D.meta.get('dbsplit')))
+                       dbsplit=bool(D.meta.get('dbsplit')), style=D.meta.get('style'))
     kw.setdefault('use_internal_name', D.naming == 'own')
     phylo_dir = kw.pop('phyloxml_dir', None)
     if phylo_dir and D.T[0] != '':      # (a PhyloXML clade cannot carry an empty name; unlabelled roots go the Newick way)
@@ -179,7 +182,7 @@ def write_replay(prop, seed, idx, payload):
 
 def dataset_payload(D, groups=None, species=None):
     return dict(newick=nwk_of(D), naming=D.naming,
-                orthoxml=gen.orthoxml(species if species is not None else D.species, groups if groups is not None else D.groups, dbsplit=bool(D.meta.get('dbsplit'))),
+                orthoxml=gen.orthoxml(species if species is not None else D.species, groups if groups is not None else D.groups, dbsplit=bool(D.meta.get('dbsplit')), style=D.meta.get('style')),
                 sexp=gen.sx_case('replay', D.T, D.naming, species if species is not None else D.species,
                                  groups if groups is not None else D.groups,
                                  histories=[(p, l) for p, l, _ in D.families]))
